@@ -530,8 +530,10 @@ impl SimProp for C19 {
             }
         };
         account(stats, &a);
-        // (i) reproducible
-        match run_sim(case) {
+        // (i) reproducible (one further run; 8 while minimising, 32 in a replay)
+        let reps = crate::sup::repeat_runs();
+        for rep in 0..reps {
+          match run_sim(case) {
             Ok(b) => {
                 if let Some(d) = diff_traces(&a.trace, &b.trace) {
                     v.push((
@@ -548,6 +550,8 @@ impl SimProp for C19 {
                 ));
                 return v;
             }
+          }
+          let _ = rep;
         }
         if let Some(e) = sorted_by_time(&a.trace) {
             v.push(("unordered".into(), e));
